@@ -394,6 +394,134 @@ pub fn child(ctx: &Ctx) -> i32 {
         });
         rep.merge(acc);
     }
+    // regular expressions are compiled again when the optimiser merges or rewrites them: every
+    // regex text the loader accepts (all short texts over the regex-syntax alphabet, random longer
+    // ones) as single regexes of several identifiers over one field joined by `or`, and regexes
+    // near the compiler's size limit spread over identifiers (each list loads; the merged set is
+    // bigger than any of them)
+    {
+        let syms = crate::c04::REGEX_SYMS;
+        let n = syms.len();
+        let stripes = 16usize;
+        let maxlen = ctx.size(3, 4);
+        let acc = par_shards(ctx, stripes, |stripe| {
+            let mut rep = Report::new();
+            let mut rng = Rng::new(ctx.seed, "C03-regex", stripe as u64);
+            let docs: Vec<DVal> = ["a", "ab\n0", "", "(A|b)", "\\0", "\u{0}1"].iter().map(|h| DVal::obj(vec![("k", DVal::s(h))])).chain([DVal::obj(vec![("k", DVal::UInt(10))]), DVal::Obj(vec![])]).collect();
+            let mut texts: Vec<String> = vec![];
+            for len in 1..=maxlen {
+                let total = n.pow(len as u32);
+                let mut idx = stripe;
+                while idx < total {
+                    let mut re = String::new();
+                    let mut c = idx;
+                    for _ in 0..len {
+                        re.push_str(syms[c % n]);
+                        c /= n;
+                    }
+                    idx += stripes;
+                    texts.push(re);
+                }
+            }
+            for _ in 0..ctx.size(300, 5000) {
+                texts.push(crate::c04::random_string(&mut rng, syms, 9));
+            }
+            if stripe == 0 {
+                for unit in ["\\w", "\\pL", "[a-z0-9]", "."] {
+                    for n in [50usize, 100, 200, 300, 1000] {
+                        if ctx.quick() && (n > 300 || unit.len() < 3) {
+                            continue;
+                        }
+                        texts.push(format!("{}{{{}}}", unit, n));
+                    }
+                }
+            }
+            let q = |t: &str| serde_yaml::to_string(&Y::String(t.to_string())).unwrap_or_default().trim().to_string();
+            for re in &texts {
+                if ctx.expired() {
+                    rep.truncated = true;
+                    break;
+                }
+                let big = re.len() > 3 && re.ends_with('}');
+                let variants: Vec<String> = if big {
+                    // 2..4 identifiers with 1, 2 or 4 members each
+                    let mut v = vec![];
+                    for (ids, m) in [(2usize, 1usize), (2, 2), (2, 4), (4, 2), (3, 4)] {
+                        let mut t = String::from("detection:\n");
+                        for i in 0..ids {
+                            t.push_str(&format!("  I{}:\n    k:\n", i));
+                            for j in 0..m {
+                                t.push_str(&format!("    - {}\n", q(&format!("?{}{}{}", re, i, j))));
+                            }
+                        }
+                        t.push_str(&format!("  condition: {}\ntrue_positives: []\ntrue_negatives: []\n", (0..ids).map(|i| format!("I{}", i)).collect::<Vec<_>>().join(" or ")));
+                        v.push(t);
+                    }
+                    v
+                } else {
+                    vec![format!(
+                        "detection:\n  A:\n    k: {}\n  B:\n    k: {}\n  C:\n    k:\n    - {}\n    - {}\n  D:\n    k: {}\n  E:\n    k: {}\n  condition: A or B or C or D or E\ntrue_positives: []\ntrue_negatives: []\n",
+                        q(&format!("?{}", re)),
+                        q("?b+"),
+                        q(&format!("i?{}", re)),
+                        q("i?c+"),
+                        q("?.*a"),
+                        q(&format!("i?{}", re))
+                    )]
+                };
+                for text in variants {
+                    set_case("load", &text);
+                    let rule = match eng::load(&text) {
+                        Ok(Load::Ok(r)) => *r,
+                        Ok(Load::Err(_)) => {
+                            rep.count("regex_stage.rejected");
+                            continue;
+                        }
+                        Err(_) => {
+                            rep.count("load_panicked(C04)");
+                            continue;
+                        }
+                    };
+                    rep.count(if big { "regex_stage.big_accepted" } else { "regex_stage.accepted" });
+                    rep.nontrivial_key(&format!("re|{}", re));
+                    let maps: Vec<serde_yaml::Mapping> = docs.iter().map(to_yaml_map).collect();
+                    let base: Vec<Option<bool>> = maps.iter().map(|m| eng::matches(&rule, m).ok()).collect();
+                    for sw in Sw::ALL16.iter().skip(1) {
+                        set_case("optimise", &text);
+                        match eng::optimise(&rule, *sw) {
+                            Err(p) => {
+                                rep.violation("panic", &format!("c03-panic:{}", p.sig()), &format!("rule loads, then optimise[{}] panics at {}", sw.name(), p.sig()), json!({"rule": text, "switches": sw.0 as i64, "stage": "optimise", "panic": p.sig(), "expected": "no-panic"}));
+                                break;
+                            }
+                            Ok(o) => {
+                                for (i, m) in maps.iter().enumerate() {
+                                    rep.evaluations += 1;
+                                    match eng::matches(&o, m) {
+                                        Err(p) => {
+                                            rep.violation("panic", &format!("c03-panic:{}", p.sig()), &format!("rule loads, then matches after optimise[{}] panics at {}", sw.name(), p.sig()), json!({"rule": text, "doc_json": docs[i].to_json_text(), "switches": sw.0 as i64, "stage": "matches", "panic": p.sig(), "expected": "no-panic"}));
+                                            break;
+                                        }
+                                        Ok(v) => {
+                                            // a pure disjunction of searches: the optimised verdict is the unoptimised one
+                                            if Some(v) != base[i] && base[i].is_some() {
+                                                rep.count("regex_stage.verdict_differs(C01)");
+                                            }
+                                        }
+                                    }
+                                }
+                            }
+                        }
+                    }
+                    clear_case();
+                }
+            }
+            rep
+        });
+        rep.merge(acc);
+        if rep.get("regex_stage.accepted") == 0 || rep.get("regex_stage.big_accepted") == 0 {
+            rep.inconclusive.push("the regex stage loaded no rule".into());
+        }
+    }
     // thorough only: huge rules (a list of 10^5 members; an or-group over more distinct fields
     // than the matrix's one-character keys can number before the surrogate gap)
     if !ctx.quick() {
@@ -408,7 +536,7 @@ pub fn child(ctx: &Ctx) -> i32 {
         ctx,
         rep,
         Meta {
-            rule: "rules that load although they are hostile: generated rules whose condition received token-level damage (literals, casts and quantifiers as operands of and/or/not, huge thresholds, double negation), whose identifier leaves were replaced by hostile YAML (empty strings and lists, 70-member lists, regex edge cases, u64/i64 extremes, NaN), and whose example lists contain non-mapping entries; every accepted rule is optimised with all 16 switch sets and matched against adversarial documents (every value kind for every addressed key, empty and nested containers, 64-bit extremes, NaN, inf, long multi-byte strings, a flat Document answering dotted keys literally) and validated; plus depth-64 nesting. Oracle: panic monitor + watchdog in a child process. non-trivial = accepted rule, distinct by (stream, printed expression)".into(),
+            rule: "rules that load although they are hostile: generated rules whose condition received token-level damage (literals, casts and quantifiers as operands of and/or/not, huge thresholds, double negation), whose identifier leaves were replaced by hostile YAML (empty strings and lists, 70-member lists, regex edge cases, u64/i64 extremes, NaN), and whose example lists contain non-mapping entries; every accepted rule is optimised with all 16 switch sets and matched against adversarial documents (every value kind for every addressed key, empty and nested containers, 64-bit extremes, NaN, inf, long multi-byte strings, a flat Document answering dotted keys literally) and validated; plus depth-64 nesting; plus every regex text of <= 3 symbols over a 20-symbol regex-syntax alphabet (and random longer ones) as lone regexes of several identifiers over one field joined by `or` (the optimiser compiles them again as one set), and regexes of 50..1000 repetitions spread over 2..4 identifiers, all 15 switch sets. Oracle: panic monitor + watchdog in a child process. non-trivial = accepted rule, distinct by (stream, printed expression)".into(),
             exhaustive: false,
             assumptions: vec!["load-time panics are C04's subject and only counted here".into()],
             min_nontrivial: 200,
